@@ -149,8 +149,13 @@ def genB(rng):
             ops.append({"kind": kind, "len": ln})
         sends.append(ops)
     accept = [rng.choice((1, 2, 3, 7, 50, 200, 1000)) for _ in range(rng.randrange(1, 8))]
-    return {"part": "B", "threads": nthreads, "sends": sends, "accept": accept, "accept_cyclic": True,
-            "policy": _policy(rng), "seed": rng.randrange(1 << 30)}
+    sc = {"part": "B", "threads": nthreads, "sends": sends, "accept": accept, "accept_cyclic": True,
+          "policy": _policy(rng), "seed": rng.randrange(1 << 30)}
+    if rng.random() < 0.3:
+        # the transport stalls in the middle of a frame: 'would block', unwritable for a while (shorter or longer than
+        # the socket timeout of 5 s), then writable again
+        sc["send_stall"] = {str(rng.randrange(2, 14)): rng.choice((S // 2, 3 * S, 8 * S)) for _ in range(rng.randrange(1, 3))}
+    return sc
 
 
 def genC(rng):
@@ -164,8 +169,17 @@ def genC(rng):
             msgs.append({"kind": rng.choice(("text", "bytes")), "len": rng.choice((0, 1, 4, 20, 150)),
                          "frags": rng.choice((1, 1, 2, 3, 4)), "ping_inside": rng.random() < 0.3})
     sizes = [rng.choice((1, 2, 3, 5, 11, 40, 500)) for _ in range(rng.randrange(1, 5))]
-    return {"part": "C", "threads": nthreads, "msgs": msgs, "sizes": sizes, "spread": rng.choice((0, 0, 1, 64, 4096)),
-            "policy": _policy(rng), "seed": rng.randrange(1 << 30)}
+    sc = {"part": "C", "threads": nthreads, "msgs": msgs, "sizes": sizes, "spread": rng.choice((0, 0, 1, 64, 4096)),
+          "policy": _policy(rng), "seed": rng.randrange(1 << 30)}
+    if rng.random() < 0.25:
+        # finite socket timeout; fragments of one message trickle in at gaps shorter than the timeout, the whole message
+        # taking longer than the timeout: the receiver holding the message is busy, the others wait
+        sc["timeout"] = 2 * S
+        sc["frag_gap"] = rng.choice((S, S + S // 2))
+        for m in sc["msgs"]:
+            if m["kind"] != "ping":
+                m["frags"] = rng.choice((3, 4, 5))
+    return sc
 
 
 def gen(rng):
@@ -264,8 +278,10 @@ def runB(sc, choices):
         policy = dict(sc.get("policy") or {"kind": "coop"})
     except (KeyError, TypeError, ValueError) as e:
         raise InvalidScenario(str(e))
-    w, peers = std_world(seed=int(sc.get("seed", 1)), sock={"accept": accept, "accept_cyclic": True} if accept else {},
-                         policy=policy, choices=choices, step_cap=600_000)
+    sockcfg = {"accept": accept, "accept_cyclic": True} if accept else {}
+    if sc.get("send_stall"):
+        sockcfg["send_stall"] = {int(a): int(b) for a, b in sc["send_stall"].items()}
+    w, peers = std_world(seed=int(sc.get("seed", 1)), sock=sockcfg, policy=policy, choices=choices, step_cap=600_000)
     expected = []  # per thread: list of (opcode, payload)
     for t, ops in enumerate(sends):
         lst = []
@@ -357,6 +373,10 @@ def runC(sc, choices):
             raise InvalidScenario("msgs")
         policy = dict(sc.get("policy") or {"kind": "coop"})
         spread = int(sc.get("spread", 0))
+        frag_gap = int(sc.get("frag_gap", 0))
+        tmo = sc.get("timeout")
+        if frag_gap and (tmo is None or frag_gap >= int(tmo)):
+            raise InvalidScenario("fragment gap must stay below the socket timeout")
         stream = bytearray()
         expected = []
         pings = []
@@ -387,6 +407,10 @@ def runC(sc, choices):
                         pl = tag + b"in"
                         pings.append(pl)
                         part += R.encode_frame(1, 9, pl)
+                    if frag_gap and j < len(pieces) - 1:
+                        script.append({"t": t, "hex": bytes(part).hex()})
+                        part = bytearray()
+                        t += frag_gap
                 expected.append(body.decode() if op == 1 else body)
             else:
                 raise InvalidScenario("kind")
@@ -404,7 +428,10 @@ def runC(sc, choices):
     with w:
         ws = w.ws
         c = ws.WebSocket()
+        if tmo is not None:
+            c.settimeout(int(tmo) / S)
         c.connect(f"ws://{HOST}/")
+        ntimeouts = [0]
 
         def worker(t):
             while True:
@@ -419,6 +446,11 @@ def runC(sc, choices):
                 except ws.WebSocketConnectionClosedException:
                     ends[t] = "closed"
                     return
+                except ws.WebSocketTimeoutException:
+                    ntimeouts[0] += 1
+                    if ntimeouts[0] > 400:
+                        ends[t] = "too many timeouts"
+                        return
                 except BaseException as e:  # noqa
                     ends[t] = f"{exc_name(e)}: {str(e)[:80]}"
                     return
@@ -468,7 +500,7 @@ def runC(sc, choices):
 
 
 def sample_view(sc, r):
-    v = {k: sc.get(k) for k in ("part", "threads", "policy", "accept", "sizes", "spread")}
+    v = {k: sc.get(k) for k in ("part", "threads", "policy", "accept", "sizes", "spread", "send_stall", "timeout", "frag_gap")}
     if sc.get("part") == "B":
         v["sends"] = sc.get("sends")
     else:
